@@ -1016,7 +1016,19 @@ def falsy_callable_fault_probes(rep):
 
             def __len__(self):
                 return 0
-            if asynchronous:
+            if asynchronous == "awaitobj":
+                def __call__(self, *args):          # a plain method handing back an awaitable object (not a coroutine)
+                    outer = self
+
+                    class _Aw:
+                        def __await__(self_):
+                            outer.calls += 1
+                            if outer.calls == n:
+                                raise Boom(n)
+                            return args[-1]
+                            yield
+                    return _Aw()
+            elif asynchronous:
                 async def __call__(self, *args):
                     self.calls += 1
                     if self.calls == n:
@@ -1058,7 +1070,7 @@ def falsy_callable_fault_probes(rep):
                 except BaseException as e:  # noqa
                     return ("other", type(e).__name__)
             want = ev(fs, mk(n, False))
-            for asynchronous in (False, True):
+            for asynchronous in (False, True, "awaitobj"):
                 got = ev(fa, mk(n, asynchronous))
                 rep.count(("falsy-callable", name, n, asynchronous), True)
                 if got[:2] != want[:2]:
